@@ -444,3 +444,137 @@ Example C14_ex_history_parent_links :
   exists w o3 o4, run init ex_hist_tree = Some w /\ get_obj w 3 = Some o3 /\ o_parent o3 = 4 /\ o_plink o3 = Some 4 /\
     get_obj w 4 = Some o4 /\ o_parent o4 = 2 /\ o_plink o4 = None.
 Proof. vm_compute. do 3 eexists. repeat split. Qed.
+
+(* ==================================================================================================================
+   The reference-set clause (package B6; supersedes the "NOT PROVED ... exact reference-set equality" note in the header).
+
+   ref_set h (Obj/SceneGraphRef.v) is the flat reference semantics of "announced and not since killed (directly or
+   through a killed ancestor) or unloaded": a full id is live from its first ObjectUpdate(Compressed) into a tracked
+   region; a later update moves / re-parents it; KillObject (r, l) in a tracked region removes every live object of r
+   whose walk up the parent ids (doomed) reaches local id l through non-avatar objects (the object at l itself dies
+   even if it is an avatar; avatars sitting on a dying object are spared, with everything sitting on them; parent id
+   0 is no parent); region teardown removes the region's objects.  It mentions no local-id index, child list or orphan
+   list.  harness/props/c14.py:Spec is its literal Python transcription, and the correspondence suite "reference"
+   compares the extracted ref_step, Spec and the real managers after every step.
+
+   Proof (Obj/SceneGraphRefProofs.v): a refinement relation Rrel w s (same full ids with the same region / local id /
+   parent id / avatar flag, same tracked regions) is preserved by every step (step_Rrel).  For KillObject the cascade is
+   shown to remove a set that is sound (whatever goes is the killed id or a non-avatar whose parent id is the killed id
+   or names an object that goes) and complete (the killed id goes; a surviving non-avatar's parent id is not the killed
+   id and names no object that goes) through the recursion with the generalised invariant of SceneGraphKill.v
+   (kill_KX); under acyclic parent links any such set is the one decided by the walk-up test with fuel = number of live
+   objects + 1 (doomed_exact). *)
+Require Import HV.Obj.SceneGraphRefProofs.
+
+(* after every history inside the statement's assumptions (input_full_ok: no local id given to two live objects, updates
+   name a tracked region - see C14_untracked_region_refuted -, parent links acyclic, KillObject / teardown / track /
+   requests name a registered region; plus the local-id-change gap of input_tree_ok described in the header), the
+   full-id lookup equals the reference set as a finite map: full id |-> (region, local id, parent id, avatar?) *)
+Theorem C14_reference_exact : forall h w, hist_ok input_full_ok init h -> run init h = Some w ->
+  forall g, aget g (tracked w) = aget g (ref_set h).
+Proof. exact reference_exact. Qed.
+Print Assumptions C14_reference_exact.
+
+(* the same as sets of (region, local id, full id, parent id) tuples, for BOTH lookups: a tuple is in the reference set
+   iff the full-id lookup holds it, and then the local-id lookup of that region holds it too *)
+Theorem C14_reference_exact_set : forall h w, hist_ok input_full_ok init h -> run init h = Some w ->
+  forall r l f p, In (r, l, f, p) (tuples (ref_set h)) <->
+    (exists o, get_obj w f = Some o /\ o_region o = r /\ o_lid o = l /\ o_parent o = p) /\
+    (exists o, lookup_local w r l = Some o /\ o_full o = f /\ o_parent o = p).
+Proof. exact reference_exact_set. Qed.
+Print Assumptions C14_reference_exact_set.
+
+(* lookup by local id is the reference's at(): the live object last announced under (region, local id), if any *)
+Theorem C14_reference_local_lookup : forall h w, hist_ok input_full_ok init h -> run init h = Some w ->
+  forall r l, option_map (fun o => (o_full o, rob_of o)) (lookup_local w r l) = ref_at (ref_set h) r l.
+Proof. exact reference_local_lookup. Qed.
+Print Assumptions C14_reference_local_lookup.
+
+(* histories without KillObject need only the index assumption (no Tree, no acyclicity): in particular the local-id
+   change with new local id = old parent id, which input_tree_ok excludes, is covered here *)
+Theorem C14_reference_exact_nokill : forall h w, hist_ok input_idx_ok init h ->
+  forallb (fun e => negb (is_kill e)) h = true -> run init h = Some w ->
+  forall g, aget g (tracked w) = aget g (ref_set h).
+Proof. exact reference_exact_nokill. Qed.
+Print Assumptions C14_reference_exact_nokill.
+
+(* the step forms.  Rrel w s: w and the reference state s hold the same full ids with the same (region, local id, parent
+   id, avatar?) and the same tracked regions.  Every handler refines the reference step; KillObject needs Tree and
+   acyclic parent links in the state it arrives in, the other kinds only Idx (not even the input assumptions) *)
+Theorem C14_step_reference : forall w e w' s, Idx w ->
+  (forall r l, e = EKill r l -> Tree w /\ acyclic w) ->
+  Rrel w s -> step w e = Some w' -> Rrel w' (ref_step s e).
+Proof. exact step_Rrel. Qed.
+Print Assumptions C14_step_reference.
+
+Theorem C14_kill_reference : forall w r l w' s, Idx w -> Tree w -> acyclic w -> Rrel w s ->
+  step w (EKill r l) = Some w' -> Rrel w' (ref_kill s r l).
+Proof. exact step_kill_Rrel. Qed.
+Print Assumptions C14_kill_reference.
+
+(* the two halves of the kill argument on their own: (1) the cascade, under the generalised invariant with any set D of
+   detached objects, removes a sound and complete set (KX); (2) any such set is the one the walk-up test decides *)
+Theorem C14_kill_closed : forall n r, KX (fun w c => kill n w r c) r.
+Proof. exact kill_KX. Qed.
+Print Assumptions C14_kill_closed.
+
+Theorem C14_doomed_exact : forall live r l (gone : N -> Prop) ht,
+  (forall g o, In (g, o) live -> x_parent o <> 0 -> (ht (x_region o) (x_lid o) < ht (x_region o) (x_parent o))%nat) ->
+  (forall g o, In (g, o) live -> gone g ->
+     x_region o = r /\ (x_lid o = l \/ (x_av o = false /\ x_parent o <> 0 /\
+       (x_parent o = l \/ exists g' o', ref_at live r (x_parent o) = Some (g', o') /\ gone g')))) ->
+  (forall g o, In (g, o) live -> x_region o = r -> x_lid o = l -> gone g) ->
+  (forall g o, In (g, o) live -> x_region o = r -> x_av o = false -> x_parent o <> 0 -> x_parent o = l -> gone g) ->
+  (forall g o g' o', In (g, o) live -> x_region o = r -> x_av o = false -> x_parent o <> 0 ->
+     ref_at live r (x_parent o) = Some (g', o') -> gone g' -> gone g) ->
+  forall g o, In (g, o) live -> (gone g <-> doomed (S (length live)) live r l o = true).
+Proof. exact doomed_exact. Qed.
+Print Assumptions C14_doomed_exact.
+
+(* ---- non-vacuity ---- *)
+(* ex_hist_tree satisfies the hypotheses of C14_reference_exact (C14_ex_history_noerr); its reference set is the avatar
+   4 (spared by the kill of local id 2 it was sitting on, still naming 2 as parent) and object 3 sitting on the avatar:
+   the kills of local ids 3, 2 and 6 removed full ids 3 (first incarnation), 5, 2 and 6 through the walk-up test *)
+Example C14_ex_reference :
+  hist_ok input_full_ok init ex_hist_tree /\
+  ref_set ex_hist_tree = [(3, mkRob 1 5 4 false); (4, mkRob 1 4 2 true)] /\
+  exists w, run init ex_hist_tree = Some w /\ forall g, aget g (tracked w) = aget g (ref_set ex_hist_tree).
+Proof.
+  destruct C14_ex_history_noerr as [H (w & R & _)]. split; [exact H|]. split; [vm_compute; reflexivity|].
+  exists w. split; [exact R|]. exact (C14_reference_exact _ _ H R).
+Qed.
+
+(* the walk-up test at work: in the chain 1 <- 2 <- 3 <- 4 <- 5 plus the orphans 6 <- 7 of the unknown id 9, killing 9 dooms
+   6 and 7 only, killing 1 dooms the whole chain; an avatar in the chain stops the cascade below it *)
+Example C14_ex_doomed :
+  let s := ref_run [ETrack 1; EFull false 1 1 1 0 false 1; EFull false 1 2 2 1 false 1; EFull false 1 3 3 2 true 1;
+                    EFull false 1 4 4 3 false 1; EFull false 1 6 6 9 false 1; EFull false 1 7 7 6 false 1] in
+  map fst (rf_live (ref_kill s 1 9)) = [4; 3; 2; 1] /\
+  map fst (rf_live (ref_kill s 1 1)) = [7; 6; 4; 3] /\
+  map fst (rf_live (ref_kill s 1 3)) = [7; 6; 2; 1] /\
+  map fst (rf_live (ref_kill s 1 0)) = [7; 6; 4; 3; 2; 1] /\
+  map fst (rf_live (ref_kill s 2 1)) = [7; 6; 4; 3; 2; 1].
+Proof. vm_compute. repeat split. Qed.
+
+(* a kill-free history inside input_idx_ok but outside input_tree_ok (object 2 takes local id 1 = its old parent id) *)
+Example C14_ex_reference_nokill :
+  let h := [ETrack 1; EFull false 1 2 2 1 false 1; EFull false 1 1 2 0 false 1; EFull false 1 3 3 1 true 1; EClear 1] in
+  hist_ok input_idx_ok init h /\ forallb (fun e => negb (is_kill e)) h = true /\
+  (exists w2, run init (firstn 2 h) = Some w2 /\ ~ input_tree_ok w2 (EFull false 1 1 2 0 false 1)) /\
+  ref_set h = [] /\ ref_set (removelast h) = [(3, mkRob 1 3 1 true); (2, mkRob 1 1 0 false)].
+Proof.
+  cbv zeta. split; [apply hist_okb_ok; vm_compute; reflexivity|]. split; [reflexivity|]. split; [|split; vm_compute; reflexivity].
+  eexists. split; [vm_compute; reflexivity|]. intros (_ & _ & H). vm_compute in H. destruct H as [_ H].
+  apply H; [reflexivity|discriminate|reflexivity].
+Qed.
+
+(* on the witness of the known finding c14-untracked-region the full-id lookup still equals the reference set (what
+   fails there is the local-id index, C14_untracked_region_refuted): the hypothesis "updates name a tracked region" of
+   C14_reference_exact is inherited from the index / children invariants the kill argument needs, not from this clause *)
+Example C14_untracked_region_reference :
+  let h := [ETrack 1; EFull false 1 1 1 0 false 1; EFull false 2 2 1 0 false 1; ETrack 2] in
+  exists w, run init h = Some w /\ forall g, aget g (tracked w) = aget g (ref_set h).
+Proof.
+  cbv zeta. eexists. split; [vm_compute; reflexivity|]. intros g. vm_compute.
+  destruct g as [|[p|p|]]; reflexivity.
+Qed.
